@@ -14,7 +14,7 @@ P = {
          "bounds of spec/Universe.tla; glue dv::model trusted; TZ=UTC"),
  "C04": (True, "model_checking", "6 C04",
          "TLA+ reference encoder/decoder as the format definition; byte-for-byte replay of TLC-enumerated encodings (all legal forms) into the library",
-         "Enc in spec/Codec.tla is the wire format, written from the format documentation and anchored to Scala-produced bytes; the library's bytes must equal it on every enumerated case and every alternative legal form (unknown-length sequences, chunked tuples, any hash order) must decode to the value.",
+         "Enc in spec/Codec.tla is the wire format, written from the format documentation and anchored to Scala-produced bytes; the library's bytes must equal it on every enumerated case and every alternative legal form (unknown-length sequences, chunked tuples, any hash order) must decode to the value. The string-table universe (sequences of deduplicated / plain strings in 8 placements, long streams, table neutrality) belongs to the format as well: same bytes.",
          "the specification is the reference; independence from the code rests on the golden file, the pinned Point vector and the documentation"),
  "C02": (True, "translation_validation", "6 C02",
          "TLC enumerates declarations (MC_Decl.tla) and checks mechanism = documented procedure on the spec; each declaration is compiled through the real derive macro and its behaviour compared with the specification's interpretation of the same declaration; trace validation of the record mechanism recorded from the running library (Trace_Adt against AdtMech.tla: per-field decisions of writer and reader, enum layer) and of the writer machine (Trace_Writer against Writer.tla, model-checked by MC_Writer)",
@@ -38,7 +38,7 @@ P = {
          "hash containers iterate in unspecified order: ordered targets are compared as multisets in that case"),
  "C13": (True, "translation_validation", "6 C13",
          "TLC invariants CtorIdentity / ExtensionSafe / UnknownCtorErr on MC_Decl.tla; enum pairs (E, E') generated as separate derived Rust types and replayed",
-         "all enums of 1-3 variants over unit/tuple/struct shapes x transient placement x sorted/unsorted (names chosen so sorting permutes), all extensions by 1-2 later constructors (appended; for sorted enums also declared first), all indices >= n incl. 127, 128, 2^28, 2^32-1: decoded by the other definition / must be the dedicated errors. Wide enums (130 constructors: two-byte indices); write_constructor / read_constructor events validated by Trace_Adt.",
+         "all enums of 1-3 variants over unit/tuple/struct shapes x transient placement x sorted/unsorted (names chosen so sorting permutes), all extensions by 1-2 later constructors (appended; for sorted enums also declared first), all indices >= n incl. 127, 128, 2^28, 2^32-1, each followed by junk, by a complete honest value and by an honest value without its version byte: decoded by the other definition / must be the dedicated errors. Unit constructors with a history. Wide enums (130 constructors: two-byte indices); write_constructor / read_constructor events validated by Trace_Adt.",
          "bounded enum universe; error classes compared through the harness' error-class map"),
  "C14": (True, "translation_validation", "6 C14",
          "TLC invariants TransientInvisible / TransientCtorErr on MC_Decl.tla and histories ending in FieldMadeTransient in MC_Evo.tla; derived types generated and replayed",
@@ -46,8 +46,8 @@ P = {
          "bounded declaration universe"),
  "C15": (True, "model_checking", "6 C15",
          "replay of the C01 universe on five sinks + SizeCalculator against the specification's bytes; MC_Prim.tla reader state machine (cursor semantics of every primitive read) checked by TLC and replayed on the three BinaryInput implementations; MC_PrimOut.tla: scripts of primitive writes on four sinks directly and through a SerializationContext, read back on three sources",
-         "sinks: every (type, value) of the built-in universe on Vec<u8>, BytesMut, serialize_to_bytes, serialize_to_byte_vec, a recording user-defined output (all byte-identical and equal to the spec) and SizeCalculator (exact length). sources: every script of <= 2 (quick) / 3 (thorough) primitive reads (fixed width, var_u32, var_i32, bytes / skip of 0, 1, 3 and usize::MAX) over every byte string of length <= 3 over the hostile alphabet: results, first InputEnded and cursor position identical to the model on SliceInput, OwnedInput and DeserializationContext.",
-         "compressed blocks are C16's business"),
+         "sinks: every (type, value) of the built-in universe on Vec<u8>, BytesMut, serialize_to_bytes, serialize_to_byte_vec, a recording user-defined output (all byte-identical and equal to the spec) and SizeCalculator (exact length). sources: every script of <= 2 (quick) / 3 (thorough) primitive reads (fixed width, var_u32, var_i32, bytes / skip of 0, 1, 3 and usize::MAX) over every byte string of length <= 3 over the hostile alphabet: results, first InputEnded and cursor position identical to the model on SliceInput, OwnedInput and DeserializationContext. Compressed blocks of six contents at every level on every sink, the size calculator and contexts over them.",
+         "the payload of compressed blocks (DEFLATE) is C16's business; here only that every sink holds, and the calculator counts, the same bytes"),
  "C16": (True, "fault_enumeration", "6 C16",
          "Compressed.tla (frame = var_u32(|d|) var_u32(|z|) z, reader, allocation rule) checked by TLC; trace validation: every frame the library writes and every read it performs is recorded and checked by TLC against Trace_Compressed.tla; payloads inflated by python zlib",
          "8 contents (empty .. 256 KiB quick / 8 MiB thorough) x levels 0-9 x 3 sinks x 3 sources with a suffix; truncation at every byte of the header and near both payload ends and every 64th (7th) byte in between; bit flips in the first 64 bytes and both length varints rewritten to 7 values each: totality, the allocation bound max(64 KiB, 2 x bytes actually produced) and a result that does not depend on fresh memory. Deflate.tla / MC_Deflate: 132 stored-block streams (every split of 0..3 bytes into <= 3 blocks x 3 paddings, splits of 300 / 1000 bytes) x 5 announced lengths built by the specification and read back on every source; level-0 payloads inflated by the specification.",
